@@ -494,3 +494,8 @@ Proof.
   pose proof (lev_rows_ok s t []) as H. cbn [length app] in H. rewrite H.
   unfold rowD. rewrite seq_S, map_app. cbn [map plus]. rewrite last_last, firstn_all. reflexivity.
 Qed.
+
+Lemma lev_metric s t u :
+  (lev s t = 0 <-> s = t) /\ lev s t = lev t s /\ lev s u <= lev s t + lev t u /\
+  lev s t <= Nat.max (length s) (length t).
+Proof. repeat split; [apply lev_0_iff|apply lev_0_iff|apply lev_sym|apply lev_triangle|apply lev_le_max]. Qed.
